@@ -300,7 +300,16 @@ def run_impl(im, case, raws):
             c = op[1]
             if c in live:
                 live.discard(c)
-                by_number[c].connectionLost(im.lost)
+                exc = None
+                try:
+                    by_number[c].connectionLost(im.lost)
+                except Exception as ex:         # the bus's clean-up after a lost connection raised: part of the observation
+                    exc = type(ex).__name__
+                per = drain()
+                if exc is not None:
+                    per.setdefault('exception', []).append(exc)
+                obs.append((per, False))
+                continue
             obs.append((drain(), False))
             continue
         p = target(i)
